@@ -896,4 +896,176 @@ example : requestTarget ⟨"http", "up:8080", "/files/a/b", ""⟩ = "/files/a/b"
     requestTarget ⟨"https", "up", "", ""⟩ = "/" ∧
     targetPath "/files/a%2Fb?x=%2F" = "/files/a%2Fb".toList ∧ transportSpeaks "ws" = false := by decide
 
+/-! ## Dot segments
+
+`.` is unreserved, so `/files/./a`, `/files/%2E/a`, `/files/%2e/a` are spellings of one request, and `..`, `%2E%2E`,
+`.%2E`, `%2e.` are spellings of one segment (`DotSpelling`).  Next to an encoded slash the decoded path even has segment
+borders the received one has not (`docs%2F..`).  Nothing between the request line and the upstream connection resolves,
+drops or re-spells such a segment: what is written upstream decodes to what was received, octet by octet; under
+`off` / `no_decode` it is the received spelling itself (so the encoded slashes around a dot segment stay encoded), under
+`on` the dots arrive as dots between the same neighbours.  A change that resolves dot segments on the decoded and on the
+received form of the path separately (each one right on its own) lets the two forms disagree; `EscapedPath` then
+discards the received form and an encoded slash is written as `/` under `no_decode`. -/
+
+/-- **What is sent decodes to what was received**, for every setting (no `rewrite`): the decoded path of the request
+line written upstream is the decoded path of the request, all of it — no segment, dot segment or other, is resolved,
+dropped or added. -/
+theorem c08_sent_decodes_to_received (esh : SlashHandling) (q : ReqView) (host : String) (us : List PU) (rq : String)
+    (hus : ∀ u ∈ us, u.sendable) (hb : ∀ u ∈ us, u.byte) (hne : us ≠ []) (hstar : us.map PU.dec ≠ ['*']) :
+    pathUnescapeL (targetPath (requestTarget (upstreamUrl esh ⟨host, none⟩ (respell q (renderU us)) rq))) =
+      some (us.map PU.dec) := by
+  rw [c08_sent_path_is_upstream_path]
+  show pathUnescapeL (if (upstreamPath esh none (respell q (renderU us))).isEmpty then ['/']
+    else upstreamPath esh none (respell q (renderU us))) = _
+  by_cases hesh : esh = .on
+  · subst hesh
+    rw [c08_upstream_on_canonical_no_rewrite q us (sendable_wf hus) hstar]
+    have hne' : (escapePathL (us.map PU.dec)).isEmpty = false := by
+      cases us with
+      | nil => exact absurd rfl hne
+      | cons u t => simp only [List.map_cons, escapePathL]; split <;> rfl
+    rw [hne']
+    exact pathUnescapeL_escapePathL _ (decs_byte us hb)
+  · rw [c08_upstream_kept_verbatim_no_rewrite esh hesh q us hus, renderU_ne_nil hne]
+    exact pathUnescapeL_render us (sendable_wf hus)
+
+/-- **`off` / `no_decode`: a dot segment is sent as the client spelled it**, between the neighbours the client gave
+it: for a request `prefix ++ pre ++ seg ++ post` with `seg` any spelling of `.` / `..` the path of the request line
+written upstream is `add ++ pre ++ seg ++ post` — whatever stands in `pre` and `post`, encoded slashes included
+(`docs%2F..`, `%2e%2e/a%2Fb`). -/
+theorem c08_sent_dot_segment_as_received (esh : SlashHandling) (hesh : esh ≠ .on) (q : ReqView) (host : String)
+    (r : RewriteCfg) (ps pre seg post as : List PU) (rq : String) (hseg : DotSpelling seg)
+    (hps : ∀ u ∈ ps, u.sendable) (hpre : ∀ u ∈ pre, u.sendable) (hpost : ∀ u ∈ post, u.sendable)
+    (has : ∀ u ∈ as, u.sendable) (hadd : r.add.toList = renderU as) (hstrip : r.strip.toList = renderU ps) :
+    targetPath (requestTarget (upstreamUrl esh ⟨host, some r⟩ (respell q (renderU (ps ++ (pre ++ seg ++ post)))) rq)) =
+      renderU as ++ renderU pre ++ renderU seg ++ renderU post := by
+  have hws : ∀ u ∈ pre ++ seg ++ post, u.sendable := by
+    intro u hu
+    rcases List.mem_append.mp hu with h | h
+    · rcases List.mem_append.mp h with h | h
+      · exact hpre u h
+      · exact hseg.sendable u h
+    · exact hpost u h
+  have hus : ∀ u ∈ ps ++ (pre ++ seg ++ post), u.sendable := by
+    intro u hu
+    rcases List.mem_append.mp hu with h | h
+    · exact hps u h
+    · exact hws u h
+  have hsne : seg ≠ [] := hseg.ne_nil
+  have hne : ps ++ (pre ++ seg ++ post) ≠ [] := by
+    cases seg with
+    | nil => exact absurd rfl hsne
+    | cons u t => cases ps <;> cases pre <;> simp
+  rw [c08_sent_path_is_upstream_path]
+  show (if (upstreamPath esh (some r) _).isEmpty then ['/'] else upstreamPath esh (some r) _) = _
+  rw [c08_upstream_kept_verbatim esh hesh q r _ as _ hus hne has hws hadd
+    (c08_upstream_prefix_as_configured r.strip ps _ hstrip)]
+  have hne2 : (renderU as ++ renderU (pre ++ seg ++ post)).isEmpty = false := by
+    rw [← renderU_append]
+    apply renderU_ne_nil
+    cases seg with
+    | nil => exact absurd rfl hsne
+    | cons u t => cases as <;> cases pre <;> simp
+  rw [hne2]
+  simp [renderU_append]
+
+/-- **`on`: a dot segment arrives as dots, unresolved**, between the same (decoded, default-encoded) neighbours, in
+whatever way the client spelled it (no prefix cut; `add_path_prefix` in its default encoding). -/
+theorem c08_sent_dot_segment_on (q : ReqView) (host : String) (r : RewriteCfg) (pre seg post : List PU) (ad : List Char)
+    (rq : String) (hseg : DotSpelling seg) (hpre : ∀ u ∈ pre, u.wf) (hpost : ∀ u ∈ post, u.wf)
+    (hbpre : ∀ u ∈ pre, u.byte) (hbpost : ∀ u ∈ post, u.byte) (hbad : ∀ c ∈ ad, c.toNat < 256)
+    (hadd : r.add.toList = escapePathL ad) (hstrip : r.strip = "") :
+    targetPath (requestTarget (upstreamUrl .on ⟨host, some r⟩ (respell q (renderU (pre ++ seg ++ post))) rq)) =
+      escapePathL ad ++ escapePathL (pre.map PU.dec) ++ seg.map PU.dec ++ escapePathL (post.map PU.dec) ∧
+    (seg.map PU.dec = ['.'] ∨ seg.map PU.dec = ['.', '.']) := by
+  refine ⟨?_, hseg.dec⟩
+  have hwf : ∀ u ∈ pre ++ seg ++ post, u.wf := by
+    intro u hu
+    rcases List.mem_append.mp hu with h | h
+    · rcases List.mem_append.mp h with h | h
+      · exact hpre u h
+      · exact (hseg.sendable u h).wf
+    · exact hpost u h
+  have hmap : (pre ++ seg ++ post).map PU.dec = pre.map PU.dec ++ seg.map PU.dec ++ post.map PU.dec := by simp
+  have hdot : '.' ∈ (pre ++ seg ++ post).map PU.dec := by
+    rw [hmap]
+    rcases hseg.dec with e | e <;> rw [e] <;> simp
+  have hstar : (pre ++ seg ++ post).map PU.dec ≠ ['*'] := by
+    intro e
+    rw [e] at hdot
+    simp at hdot
+  have hb : ∀ c ∈ ad ++ (pre ++ seg ++ post).map PU.dec, c.toNat < 256 := by
+    intro c hc
+    rcases List.mem_append.mp hc with h | h
+    · exact hbad c h
+    · refine decs_byte (pre ++ seg ++ post) ?_ c h
+      intro u hu
+      rcases List.mem_append.mp hu with h | h
+      · rcases List.mem_append.mp h with h | h
+        · exact hbpre u h
+        · exact hseg.byte u h
+      · exact hbpost u h
+  have hcut : cutPrefixL r.strip.toList (escapePathL ((pre ++ seg ++ post).map PU.dec)) =
+      escapePathL ((pre ++ seg ++ post).map PU.dec) := by
+    rw [hstrip]; exact cutPrefixL_nil _
+  rw [c08_sent_path_is_upstream_path]
+  show (if (upstreamPath .on (some r) _).isEmpty then ['/'] else upstreamPath .on (some r) _) = _
+  rw [c08_upstream_on_canonical q r _ ad _ hwf hstar hb hadd hcut, hmap, escapePathL_append, escapePathL_append,
+    hseg.escape_dec]
+  have hne : (escapePathL ad ++ (escapePathL (pre.map PU.dec) ++ seg.map PU.dec ++ escapePathL (post.map PU.dec))).isEmpty
+      = false := by
+    rcases hseg.dec with e | e <;> rw [e] <;> simp
+  rw [hne]
+  simp
+
+/-- **All spellings of a dot segment are forwarded alike** (`off` / `no_decode`): the paths written upstream for
+`… seg …` and `… seg' …`, two spellings of the same dot segment, are equal once the escapes of unreserved octets are
+undone — in particular they have the same encoded slashes at the same places. -/
+theorem c08_sent_dot_spellings_alike (esh : SlashHandling) (hesh : esh ≠ .on) (q : ReqView) (host : String)
+    (r : RewriteCfg) (ps pre seg seg' post as : List PU) (dots : List PU) (rq : String)
+    (hd : dots = [.lit '.'] ∨ dots = [.lit '.', .lit '.']) (h1 : Reenc dots seg) (h2 : Reenc dots seg')
+    (hps : ∀ u ∈ ps, u.sendable) (hpre : ∀ u ∈ pre, u.sendable) (hpost : ∀ u ∈ post, u.sendable)
+    (has : ∀ u ∈ as, u.sendable) (hadd : r.add.toList = renderU as) (hstrip : r.strip.toList = renderU ps) :
+    normalizeL (targetPath (requestTarget
+        (upstreamUrl esh ⟨host, some r⟩ (respell q (renderU (ps ++ (pre ++ seg ++ post)))) rq))) =
+      normalizeL (targetPath (requestTarget
+        (upstreamUrl esh ⟨host, some r⟩ (respell q (renderU (ps ++ (pre ++ seg' ++ post)))) rq))) := by
+  have hs1 : DotSpelling seg := by rcases hd with rfl | rfl; exact .inl h1; exact .inr h1
+  have hs2 : DotSpelling seg' := by rcases hd with rfl | rfl; exact .inl h2; exact .inr h2
+  have hdots : ∀ u ∈ dots, u.sendable := by
+    rcases hd with rfl | rfl <;> intro u hu <;> simp only [List.mem_cons, List.not_mem_nil, or_false] at hu
+    · subst hu; exact dot_sendable
+    · rcases hu with rfl | rfl <;> exact dot_sendable
+  have key : ∀ sg, Reenc dots sg →
+      normalizeL (renderU as ++ renderU pre ++ renderU sg ++ renderU post) =
+        normalizeL (renderU as ++ renderU pre ++ renderU dots ++ renderU post) := by
+    intro sg hsg
+    have hall : ∀ u ∈ as ++ (pre ++ (dots ++ post)), u.sendable := by
+      intro u hu
+      rcases List.mem_append.mp hu with h | h
+      · exact has u h
+      · rcases List.mem_append.mp h with h | h
+        · exact hpre u h
+        · rcases List.mem_append.mp h with h | h
+          · exact hdots u h
+          · exact hpost u h
+    have hre : Reenc (as ++ (pre ++ (dots ++ post))) (as ++ (pre ++ (sg ++ post))) := by
+      exact Reenc.append_left as (Reenc.append_left pre (hsg.append_right post))
+    have := c08_normalize_reenc _ _ (sendable_wf hall) hre
+    simpa [renderU_append, List.append_assoc] using this
+  rw [c08_sent_dot_segment_as_received esh hesh q host r ps pre seg post as rq hs1 hps hpre hpost has hadd hstrip,
+    c08_sent_dot_segment_as_received esh hesh q host r ps pre seg' post as rq hs2 hps hpre hpost has hadd hstrip,
+    key seg h1, key seg' h2]
+
+/-- non-vacuity: `%2E`, `%2e%2E`, `.%2e` are dot segments; `/d%2F..` decodes to `/d/..`: the decoded form has a dot
+segment the received one has not -/
+example : DotSpelling [.esc '2' 'E'] ∧ DotSpelling [.esc '2' 'e', .esc '2' 'E'] ∧ DotSpelling [.lit '.', .esc '2' 'e'] :=
+  ⟨.inl (.enc '.' '2' 'E' (by decide) (by decide) (by decide) (by decide) .nil),
+   .inr (.enc '.' '2' 'e' (by decide) (by decide) (by decide) (by decide)
+     (.enc '.' '2' 'E' (by decide) (by decide) (by decide) (by decide) .nil)),
+   .inr (.keep _ (.enc '.' '2' 'e' (by decide) (by decide) (by decide) (by decide) .nil))⟩
+
+example : renderU [PU.lit '/', .lit 'd', .esc '2' 'F', .lit '.', .lit '.'] = "/d%2F..".toList ∧
+    [PU.lit '/', .lit 'd', .esc '2' 'F', .lit '.', .lit '.'].map PU.dec = "/d/..".toList := by decide
+
 end Heimdall.Props.C08
